@@ -7,6 +7,7 @@ package main
 
 import (
 	"context"
+	"crypto/sha1"
 	"encoding/hex"
 	"encoding/json"
 	"flag"
@@ -122,6 +123,14 @@ type recv struct {
 	sender types.StreamSender
 }
 
+func enc(b []byte) string {
+	if len(b) <= 256 {
+		return hex.EncodeToString(b)
+	}
+	h := sha1.Sum(b)
+	return fmt.Sprintf("sha1:%x:%d:%s", h, len(b), hex.EncodeToString(b[:16]))
+}
+
 func rangeKV(h api.HeaderMap) []string {
 	kv := []string{}
 	if h == nil {
@@ -140,7 +149,7 @@ func (r *recv) OnReceive(ctx context.Context, headers api.HeaderMap, data buffer
 	if xf, ok := headers.(api.XFrame); ok {
 		fmt.Fprintf(&sb, "id=%d type=%d hb=%v ", xf.GetRequestId(), xf.GetStreamType(), xf.IsHeartbeatFrame())
 		if d := xf.GetData(); d != nil {
-			sb.WriteString("xdata=" + hex.EncodeToString(d.Bytes()) + " ")
+			sb.WriteString("xdata=" + enc(d.Bytes()) + " ")
 		}
 	}
 	for _, v := range []string{types.VarMethod, types.VarPath, types.VarQueryString, types.VarHost} {
@@ -150,7 +159,7 @@ func (r *recv) OnReceive(ctx context.Context, headers api.HeaderMap, data buffer
 	}
 	sb.WriteString("H[" + strings.Join(rangeKV(headers), "|") + "] ")
 	if data != nil {
-		sb.WriteString("D=" + hex.EncodeToString(data.Bytes()) + " ")
+		sb.WriteString("D=" + enc(data.Bytes()) + " ")
 	} else {
 		sb.WriteString("D=nil ")
 	}
@@ -711,11 +720,50 @@ func main() {
 							return
 						}
 					}
+					if v.Proto == "tars" {
+						return
+					}
+					// messages larger than every intermediate buffer, in chunks of every magnitude
+					bp := v
+					bp.Shapes = []int{1, 3, 0, 3, 2}
+					bp.Base = 20
+					rb, ok := withRef(bp)
+					if !ok {
+						return
+					}
+					nb := len(rb.all)
+					for k := 0; k < *nrand; k++ {
+						cuts := []int{}
+						pos := 0
+						for pos < nb {
+							var step int
+							switch rng.Intn(5) {
+							case 0:
+								step = 1 + rng.Intn(200)
+							case 1:
+								step = 1 + rng.Intn(5000)
+							case 2:
+								step = 4000 + rng.Intn(9000)
+							default:
+								step = 1 + rng.Intn(45000)
+							}
+							pos += step
+							if pos > nb {
+								pos = nb
+							}
+							cuts = append(cuts, pos)
+						}
+						if rb.play("big-random", cuts, k%2 == 0) && hung {
+							return
+						}
+					}
 				})
 			}
 		}
 	case "detect":
 		runDetect(plist)
+	case "e2e":
+		runE2E(*cases, *nrand)
 	}
 	finish()
 }
